@@ -1015,8 +1015,8 @@ package log
 //@   ghost stk[enc.jsonEncoder] = old(enc.jsonDepth) > 0 ? stk_key(old(stk[enc.jsonEncoder])) : old(stk[enc.jsonEncoder])
 //@   ghost tok[enc] = tsnoc(old(tok[enc]), 20, 0, 0, 0, key)
 //@   ensures[C08:depth-bookkeeping] textOK(enc) && enc.jsonDepth == old(enc.jsonDepth)
-//@   ensures[C08:nested-key-as-json] old(enc.jsonDepth) > 0 ==> enc.hasWritten == old(enc.hasWritten) && enc.buf.out == bsnoc(bsnoc(binit(binit(enc.buf.out)), 34), 58) && Ext(bsnoc(old(preK(enc.jsonEncoder)), 34), binit(binit(enc.buf.out)), RP(key, len(key)))
-//@   ensures[C08:top-level-key] old(enc.jsonDepth) == 0 ==> enc.hasWritten && enc.buf.out == bsnoc(binit(enc.buf.out), 61) && Ext(old(enc.hasWritten) ? bapp(old(enc.buf.out), enc.separator) : old(enc.buf.out), binit(enc.buf.out), RP(key, len(key)))
+//@   ensures[C08,C09:nested-key-as-json] old(enc.jsonDepth) > 0 ==> enc.hasWritten == old(enc.hasWritten) && enc.buf.out == bsnoc(bsnoc(binit(binit(enc.buf.out)), 34), 58) && Ext(bsnoc(old(preK(enc.jsonEncoder)), 34), binit(binit(enc.buf.out)), RP(key, len(key)))
+//@   ensures[C08,C09:top-level-key] old(enc.jsonDepth) == 0 ==> enc.hasWritten && enc.buf.out == bsnoc(binit(enc.buf.out), 61) && Ext(old(enc.hasWritten) ? bapp(old(enc.buf.out), enc.separator) : old(enc.buf.out), binit(enc.buf.out), RP(key, len(key)))
 
 //@ func (*TextEncoder).AppendBool
 //@   requires textOK(enc) && (enc.jsonDepth > 0 ==> value_legal(stk[enc.jsonEncoder]))
@@ -1061,8 +1061,8 @@ package log
 //@   ghost stk[enc.jsonEncoder] = old(enc.jsonDepth) > 0 ? stk_child_done(old(stk[enc.jsonEncoder])) : old(stk[enc.jsonEncoder])
 //@   ghost tok[enc] = tsnoc(old(tok[enc]), 25, 0, 0, 0, v)
 //@   ensures[C08:depth-bookkeeping] textOK(enc) && enc.jsonDepth == old(enc.jsonDepth)
-//@   ensures[C08:nested-as-json] old(enc.jsonDepth) > 0 ==> enc.buf.out == bsnoc(binit(enc.buf.out), 34) && Ext(bsnoc(old(preV(enc.jsonEncoder)), 34), binit(enc.buf.out), RP(v, len(v)))
-//@   ensures[C08:top-level-escaped-unquoted] old(enc.jsonDepth) == 0 ==> Ext(old(enc.buf.out), enc.buf.out, RP(v, len(v)))
+//@   ensures[C08,C09:nested-as-json] old(enc.jsonDepth) > 0 ==> enc.buf.out == bsnoc(binit(enc.buf.out), 34) && Ext(bsnoc(old(preV(enc.jsonEncoder)), 34), binit(enc.buf.out), RP(v, len(v)))
+//@   ensures[C08,C09:top-level-escaped-unquoted] old(enc.jsonDepth) == 0 ==> Ext(old(enc.buf.out), enc.buf.out, RP(v, len(v)))
 
 //@ func (*TextEncoder).AppendReflect
 //@   requires textOK(enc) && (enc.jsonDepth > 0 ==> value_legal(stk[enc.jsonEncoder]))
